@@ -579,6 +579,21 @@ class Interp:
         body = clo.node.body
         if body and isinstance(body[0], ast.Expr) and isinstance(body[0].value, ast.Constant) and isinstance(body[0].value.value, str):
             body = body[1:]
+        ghook = self.loops.get('generator_closure')
+        if ghook is not None and _is_generator(clo.node):
+            # a nested generator function under a `generator_closure` clause: its body is run to exhaustion at the call and the
+            # segments it yields are handed to the contract (which states why eager evaluation is admissible and builds the iterable)
+            outer_out = self.path.out
+            self.path.out = []
+            try:
+                try:
+                    self.exec_block(body, inner)
+                except _Return:
+                    pass
+                segs = self.path.out
+            finally:
+                self.path.out = outer_out
+            return ghook(self.path, clo.node.name, segs)
         try:
             self.exec_block(body, inner)
         except _Return as r:
@@ -636,9 +651,10 @@ class Interp:
                 hook = self.loops.get('on_yield_from')
                 if hook is None:
                     raise Unsupported('yield from a contract iterable without an on_yield_from clause')
-                marker = ObjV('yield-from', {}, name='yield from')
-                marker.iterable = v
-                p.out.append(marker)
+                if self.loops.get('yield_from_marker', True):
+                    marker = ObjV('yield-from', {}, name='yield from')
+                    marker.iterable = v
+                    p.out.append(marker)
                 hook(p, env, v)
                 return
             self.eval(st.value, env)
@@ -811,10 +827,9 @@ class Interp:
         p = self.path
         n = self.loop_ordinals[id(st)]
         it = self.eval(st.iter, env)
-        if st.orelse:
-            raise Unsupported('for/else')
         if isinstance(it, (TupleV, ListV)):
             items = list(it.items)       # A-SEQ: a body that mutates the iterated list is rejected
+            broke = False
             for item in items:
                 if isinstance(it, ListV) and len(it.items) != len(items):
                     raise Unsupported('for body mutates the iterated list')
@@ -824,8 +839,13 @@ class Interp:
                 except _Continue:
                     continue
                 except _Break:
+                    broke = True
                     break
+            if not broke:
+                self.exec_block(st.orelse, env)      # for/else: the else suite runs unless the loop was left by break
             return
+        if st.orelse:
+            raise Unsupported('for/else over a sequence of symbolic length')
         if isinstance(it, ObjV) and '__iter__' in it.fields:
             it = self.call(it.fields['__iter__'], [it], {})
         orig_it = it
@@ -945,6 +965,18 @@ class Interp:
         if isinstance(tgt, ast.Name):
             env[tgt.id] = v
         elif isinstance(tgt, (ast.Tuple, ast.List)):
+            stars = [i for i, t in enumerate(tgt.elts) if isinstance(t, ast.Starred)]
+            if stars:
+                if len(stars) > 1:
+                    raise Unsupported('two starred targets')
+                nb, na = stars[0], len(tgt.elts) - stars[0] - 1
+                before, mid, after = self.unpack_star(v, nb, na)
+                for t, x in zip(tgt.elts[:nb], before):
+                    self.assign(t, x, env)
+                self.assign(tgt.elts[nb].value, mid, env)
+                for t, x in zip(tgt.elts[nb + 1:], after):
+                    self.assign(t, x, env)
+                return
             items = self.unpack(v, len(tgt.elts))
             for t, x in zip(tgt.elts, items):
                 self.assign(t, x, env)
@@ -981,7 +1013,29 @@ class Interp:
             if len(v.items) != n:
                 raise PyRaise('ValueError')
             return v.items
+        if isinstance(v, (IterV, SeqV)) and z3.is_int_value(z3.simplify(v.length)):
+            # a contract iterable of concrete length (e.g. a generator expression over range(2)): its elements, each evaluated once
+            if z3.simplify(v.length).as_long() != n:
+                raise PyRaise('ValueError')
+            return [v.at(IntVal(i)) for i in range(n)]
         raise Unsupported('unpacking of %r' % (v,))
+
+    def unpack_star(self, v, nb, na):
+        """`a, *m, z = v`: (first nb items, the list of the middle items, last na items); ValueError if there are too few."""
+        if isinstance(v, ObjV) and hasattr(v, 'unpack_items'):
+            v = TupleV(v.unpack_items)
+        if isinstance(v, (TupleV, ListV)):
+            if len(v.items) < nb + na:
+                raise PyRaise('ValueError')
+            hi = len(v.items) - na
+            return v.items[:nb], ListV(v.items[nb:hi]), v.items[hi:]
+        if isinstance(v, SeqV):
+            if not self.path.branch(v.length >= nb + na):
+                raise PyRaise('ValueError')
+            mid = SeqV(lambda t, _v=v: _v.at(t + nb), v.length - nb - na, '%s[%d:%s]' % (v.name, nb, -na if na else ''))
+            mid.star_of = (v, nb, na)
+            return ([v.at(IntVal(i)) for i in range(nb)], mid, [v.at(v.length - na + i) for i in range(na)])
+        raise Unsupported('starred unpacking of %r' % (v,))
 
     # ---- expressions
     def eval(self, node, env):
@@ -1121,6 +1175,14 @@ class Interp:
             it = self.eval(g.iter, env)
             if isinstance(it, ObjV) and '__iter__' in it.fields:
                 it = self.call(it.fields['__iter__'], [it], {})
+            if isinstance(it, (TupleV, ListV)):
+                # over a concrete sequence: unrolled like a list comprehension, then built like a dict display
+                pairs = []
+                inner = flat_env(env)
+                for item in list(it.items):
+                    self.assign(g.target, item, inner)
+                    pairs.append((self.eval(node.key, inner), self.eval(node.value, inner)))
+                return self.make_dict(pairs)
             if not isinstance(it, (IterV, SeqV)):
                 raise Unsupported('dict comprehension over %s' % type(it).__name__)
 
@@ -1154,13 +1216,16 @@ class Interp:
                     raise Unsupported('dict unpacking in display')
                 kvals.append(self.eval(kx, env))
             vals = [self.eval(vx, env) for vx in node.values]
-            if not all(isinstance(kv, StrV) and kv.value is not None for kv in kvals):
-                fac = self.loops.get('dict_factory')
-                if fac is None:
-                    raise Unsupported('non-literal dict key')
-                return fac(self.path, list(zip(kvals, vals)))      # a dict keyed by values: given by the contract
-            return DictV(dict(zip([kv.value for kv in kvals], vals)))
+            return self.make_dict(list(zip(kvals, vals)))
         raise Unsupported('expression %s' % type(node).__name__)
+
+    def make_dict(self, pairs):
+        if not all(isinstance(kv, StrV) and kv.value is not None for kv, _ in pairs):
+            fac = self.loops.get('dict_factory')
+            if fac is None:
+                raise Unsupported('non-literal dict key')
+            return fac(self.path, pairs)      # a dict keyed by values: given by the contract
+        return DictV({kv.value: v for kv, v in pairs})
 
     def comprehension(self, node, env):
         """Comprehensions over concrete-length sequences are unrolled (element-wise closed form);
@@ -1297,6 +1362,12 @@ class Interp:
             if isinstance(op, ast.Mult):
                 return IntV(a.t * b.t)
             raise Unsupported('int operator %s' % type(op).__name__)
+        if isinstance(op, ast.Add) and isinstance(a, (ListV, TupleV)) and isinstance(b, ObjV) and '__radd__' in b.fields:
+            # concrete list + a list object given by the contract (symbolic length): the contract object builds the concatenation
+            return self.call(b.fields['__radd__'], [b, a], {})
+        if isinstance(a, StrV) and a.value is not None and isinstance(op, ast.Mult) and isinstance(b, IntV) \
+                and z3.is_int_value(z3.simplify(b.t)):
+            return StrV(a.value * z3.simplify(b.t).as_long())
         if isinstance(a, StrV) and isinstance(op, ast.Mod):
             return StrV(None, parts=[('fmt', a, -1, None), ('fmt', b, -1, '%')])      # %-formatting: an opaque text of its operands
         if isinstance(a, BoolV) and isinstance(b, (BoolV, IntV)) or isinstance(a, IntV) and isinstance(b, BoolV):
@@ -1448,6 +1519,9 @@ class Interp:
         if isinstance(o, StrV) and attr == 'join':
             def _join(p, args, kw, _o=o):
                 it = args[0]
+                hook = self.loops.get('str_join')
+                if hook is not None:
+                    return hook(p, _o, it)      # the contract keeps what was joined (the default below is an opaque text)
                 if isinstance(it, (IterV, SeqV, FilterV, ListV, TupleV)):
                     return StrV(None, parts=[('fmt', _o, -1, 'join')])
                 raise Unsupported('str.join of %r' % (it,))
@@ -1521,6 +1595,19 @@ class Interp:
         if isinstance(f, ObjV) and '__call__' in f.fields:
             return self.call(f.fields['__call__'], [f] + args, kwargs)
         raise Unsupported('call of %r' % (f,))
+
+
+def _is_generator(fnode):
+    """the function contains a yield of its own (nested function definitions and lambdas do not count)"""
+    todo = list(fnode.body)
+    while todo:
+        n = todo.pop()
+        if isinstance(n, (ast.Yield, ast.YieldFrom)):
+            return True
+        if isinstance(n, (ast.FunctionDef, ast.AsyncFunctionDef, ast.Lambda, ast.ClassDef)):
+            continue
+        todo.extend(ast.iter_child_nodes(n))
+    return False
 
 
 def _load(target):
